@@ -761,6 +761,16 @@ pub fn process<I: BufRead, O: Write>(
                                     }
                                 }
 
+                                // A file that (directly or not) includes itself would recurse
+                                // until the stack is exhausted
+                                if context.includes_stack.len() >= 32 {
+                                    return Err(Error::Syntax {
+                                        filename: filename.clone(),
+                                        included_in: included_in.clone(),
+                                        line,
+                                        msg: "Includes nested too deeply".to_string(),
+                                    });
+                                }
                                 // Process file
                                 let f = File::open(path)?;
                                 let assembler = fname.ends_with(".inc")
